@@ -5,7 +5,7 @@ from vverif.core import Result, HarnessError
 LEVEL = 'exploration'
 RULE = ('(a) every list of 1..L specs (L=3 quick, 4 thorough) over a 29-spec alphabet (ranges, open ranges, suffixes, '
         'last<first, non-numeric, trailing garbage, sign, inner white space, numbers at 2^63-2..2^64) joined by 3 separator '
-        'styles; (b) every string of length <= N (N=5 quick, 8 thorough) over the characters "019-, a+" as the byte-range-set; '
+        'styles; (b) every string of length <= N (N=6 quick, 8 thorough) over the characters "019-, a+" as the byte-range-set; '
         '(c) 9 range-unit spellings x 4 sets. Each header goes through HttpHdrRange::ParseCreate; each accepted header is '
         'canonised for every content length in {0,1,2,3,4,10,2^63-2,2^63-1} (thorough: 13 lengths) and compared with an '
         '__int128 interval model of RFC 7233 section 2.1. non-trivial = headers accepted and canonised + headers ignored '
